@@ -48,20 +48,25 @@ fn divm(a: &Integer, b: &Integer, n: &Integer) -> Integer {
 pub fn run_c16(cx: &mut Cx) {
     let prover = cx.node("prover");
     let verifier = cx.node("verifier");
-    let key = pool_key(cx.ch.forced("pool_key", POOL_SIZE, cx.run_index));
+    // enumeration: x kind fastest, then width kind, then key (48 runs = every x kind x width kind)
+    let key = pool_key(cx.ch.forced("pool_key", POOL_SIZE, cx.run_index / 48));
     let (g, h, n) = (key.cpk.g_bases[0].clone(), key.cpk.h.clone(), key.cpk.N.clone());
     // interval: widths {1, 2, 3, 2^k, 2^256 - 1, random}, lower bound 0 / small / large
     let seed = cx.run_seed;
-    let wk = cx.ch.forced("width_kind", 6, cx.run_index / POOL_SIZE);
+    let wk = cx.ch.forced("width_kind", 8, cx.run_index / 6);
     let width: Integer = match wk {
         0 => Integer::from(1), 1 => Integer::from(2), 2 => Integer::from(3),
         3 => Integer::from(1) << (1 + cx.ch.choose("width_pow", 300) as u32),
         4 => (Integer::from(1) << 256u32) - 1,
+        // one below a power of two, and just below a perfect square (where an integer square root
+        // taken through floating point rounds up): mostly in the 52..64-bit band
+        6 => (Integer::from(1) << [54u32, 56, 58, 60, 62, 64, 53, 63, 30, 100][cx.ch.choose("width_pow_m1", 10) as usize]) - 1,
+        7 => { let sbits = 27 + cx.ch.choose("near_square_bits", 6) as usize; let mut s = Integer::from_digits(&zksim_core::prng::bytes_for(seed, b"near-square", 0, 4), rug::integer::Order::MsfBe); s.keep_bits_mut(sbits as u32); s.set_bit(sbits as u32 - 1, true); Integer::from(&s * &s) - [1u32, 2, 17][cx.ch.choose("near_square_d", 3) as usize] }
         _ => Integer::from_digits(&zksim_core::prng::bytes_for(seed, b"width", 0, 1 + cx.ch.choose("width_bytes", 40) as usize), rug::integer::Order::MsfBe) + 1,
     };
     let a: Integer = match cx.ch.choose("lower_kind", 4) { 0 => Integer::from(0), 1 => Integer::from(10), 2 => (Integer::from(1) << 257u32) + 1, _ => Integer::from_digits(&zksim_core::prng::bytes_for(seed, b"lower", 0, 20), rug::integer::Order::MsfBe) };
     let b = Integer::from(&a + &width);
-    let xk = cx.ch.forced("x_kind", 6, cx.run_index / (POOL_SIZE * 6));
+    let xk = cx.ch.forced("x_kind", 6, cx.run_index);
     let x: Integer = match xk {
         0 => a.clone(), 1 => b.clone(), 2 => Integer::from(&a + 1u32).min(b.clone()), 3 => Integer::from(&b - 1u32).max(a.clone()),
         4 => Integer::from(&a + &b) / 2u32,
@@ -149,6 +154,32 @@ pub fn run_c16(cx: &mut Cx) {
             deliver(cx, verifier, q, format!("forged_transplant:{tname}"), false);
         }
     });
+    // a hostile or careless caller first: intervals the prover cannot serve (upper bound <= 0,
+    // bounds reversed) -- whatever those calls do (they may panic), an honest proof made by the same
+    // process afterwards is produced and accepted
+    {
+        let key_a = pool_key(cx.run_index / 48 % POOL_SIZE);
+        let (g2, h2, n2) = (key_a.cpk.g_bases[0].clone(), key_a.cpk.h.clone(), key_a.cpk.N.clone());
+        let Some(item) = cx.item() else { return };
+        cx.step(prover, "abuse-then-honest", StepOpts { tick_budget: 2000, ..Default::default() }, move || {
+            let mk = |x: &Integer| { let r = zkryptium::utils::random::random_bits(LN); let gx = if *x >= 0 { pow(&g2, x, &n2) } else { pow(&Integer::from(g2.invert_ref(&n2).unwrap()), &Integer::from(-x), &n2) }; CL03Commitment { value: (gx * pow(&h2, &r, &n2)) % &n2, randomness: r } };
+            for (x, lo, hi) in [(Integer::from(-5), Integer::from(-10), Integer::from(0)), (Integer::from(7), Integer::from(10), Integer::from(5)), (Integer::from(0), Integer::from(0), Integer::from(0))] {
+                let c = mk(&x);
+                let (gg, hh, nn) = (g2.clone(), h2.clone(), n2.clone());
+                let _ = std::panic::catch_unwind(std::panic::AssertUnwindSafe(move || { let _ = Boudot2000RangeProof::prove::<H>(&x, &c, &gg, &hh, &nn, &lo, &hi); }));
+            }
+            let x = Integer::from(500);
+            let c = mk(&x);
+            let p = Boudot2000RangeProof::prove::<H>(&x, &c, &g2, &h2, &n2, &Integer::from(0), &Integer::from(1000));
+            p.verify::<H>(&g2, &h2, &n2, &Integer::from(0), &Integer::from(1000))
+        }, move |cx, st| {
+            cx.cur_item = Some(item);
+            cx.eval(&[b"abuse-then-honest", &item.to_le_bytes()], true);
+            cx.count("fault.unservable_interval_before_an_honest_proof");
+            match st.out { Ok(true) => cx.count("verdict.MustAccept.accept"), other => cx.violation("C16", "prove/honest-proof-fails-after-an-unservable-request".into(), format!("500 in [0, 1000] after prove() was asked for [-10, 0], [10, 5] and [0, 0] in the same process: {other:?}")) }
+            cx.cur_item = None;
+        });
+    }
     // out-of-range values: the honest prover must not obtain an accepted proof
     let (a, b) = (a_out, b_out);
     for (oname, xo) in [("a-1", Integer::from(&a - 1u32)), ("b+1", Integer::from(&b + 1u32)), ("far-below", Integer::from(&a - (Integer::from(1) << 300u32))), ("far-above", Integer::from(&b + (Integer::from(1) << 300u32)))] {
